@@ -367,5 +367,16 @@ func (p *Parser) expr(in comb.Input) (comb.Output, bool) {
 // Parse is the topmost parser combinator for parsing a regular expression read from the input.
 func (p *Parser) Parse(regex string) (comb.Output, bool) {
 	in := newStringInput(regex)
-	return p.regex(in)
+
+	out, ok := p.regex(in)
+	if !ok {
+		return comb.Output{}, false
+	}
+
+	// The whole input must be a regular expression; a prefix that parses is not enough.
+	if out.Remaining != nil {
+		return comb.Output{}, false
+	}
+
+	return out, true
 }
